@@ -1,26 +1,29 @@
 #!/bin/bash
 # Sensitivity self-test: every seeded change under /verif/seeded/ must make the quick
-# check of the property it breaks exit 1 (VIOLATION), and the unchanged tree must pass.
-# Works on a scratch worktree of /repo (never on /repo itself) and its own target dir.
+# check of the property it breaks exit 1 (VIOLATION). Works on a scratch worktree of
+# /repo (never on /repo itself) and on a private copy of the harness sources, so it can
+# run next to ordinary ./check invocations.
 #   tools/selftest_seeded.sh [id-glob]      e.g. tools/selftest_seeded.sh 'r2c18*'
 set -u
 ROOT="$(cd "$(dirname "${BASH_SOURCE[0]}")/.." && pwd)"
 GLOB="${1:-*}"
-WT=/dev/shm/geodesy-verif-selftest-wt
-TG=/dev/shm/geodesy-verif-selftest-target
-git -C /repo worktree remove --force "$WT" 2>/dev/null; rm -rf "$WT"
+WT=/dev/shm/geodesy-verif-st-wt
+TG=/dev/shm/geodesy-verif-st
+git -C /repo worktree remove --force "$WT" 2>/dev/null; rm -rf "$WT" "$TG"
 git -C /repo worktree add -q --detach "$WT" HEAD || exit 2
-trap 'git -C /repo worktree remove --force "$WT" 2>/dev/null; rm -rf "$TG"; ln -sfn /repo "$ROOT/sim/repo-link"' EXIT
+trap 'git -C /repo worktree remove --force "$WT" 2>/dev/null; rm -rf "$TG"' EXIT
+mkdir -p "$TG/verif/sim"
+cp "$ROOT/check" "$ROOT/known_findings.json" "$TG/verif/"
+cp -r "$ROOT/sim/src" "$ROOT/sim/Cargo.toml" "$ROOT/sim/Cargo.lock" "$ROOT/sim/.cargo" "$TG/verif/sim/"
 fail=0
 for d in "$ROOT"/seeded/$GLOB/; do
   id=$(basename "$d")
   prop=$(python3 -c "import json,sys; print(json.load(open('$d/meta.json'))['breaks_property'])")
-  git -C "$WT" checkout -q -- . 
+  git -C "$WT" checkout -q -- .
   if ! git -C "$WT" apply "$d/patch.diff"; then echo "SELFTEST $id property=$prop patch does not apply to HEAD"; fail=1; continue; fi
-  mkdir -p "$TG/out"; cp "$ROOT/known_findings.json" "$TG/out/"
-  out=$(VERIF_REPO="$WT" VERIF_TARGET="$TG" VERIF_OUT="$TG/out" "$ROOT/check" "$prop" --tier quick 2>&1); rc=$?
+  out=$(VERIF_REPO="$WT" "$TG/verif/check" "$prop" --tier quick 2>&1); rc=$?
   classes=$(echo "$out" | grep -c '^violation class')
-  if [ $rc -eq 1 ]; then echo "SELFTEST $id property=$prop caught (exit 1, $classes classes)"; else echo "SELFTEST $id property=$prop NOT caught (exit $rc)"; fail=1; fi
+  if [ $rc -eq 1 ]; then echo "SELFTEST $id property=$prop caught (exit 1, $classes classes)"; else echo "SELFTEST $id property=$prop NOT caught (exit $rc)"; echo "$out" | tail -5; fail=1; fi
 done
 git -C "$WT" checkout -q -- .
 exit $fail
